@@ -810,7 +810,53 @@ class Lib:
         return V.RangeV(a, b, step)
 
     def bi_sorted(self, ctx, it, key=None, reverse=False):
-        raise EngineLimit("sorted()")
+        """ASSUMED (CPython list.sort / sorted): the result is a permutation of the input, ordered by the key
+           (non-decreasing, lexicographic on tuples) and stable (elements with equal keys keep their input order)."""
+        from .loops import symbolic_template, mk_forall
+
+        if isinstance(it, V.MappedIter):
+            from .loops import list_of_mapped
+
+            it = list_of_mapped(self.e, ctx, it)
+        if not isinstance(it, SymSeq) or key is None or reverse is not False:
+            raise EngineLimit("sorted() of %r (only sorted(<symbolic sequence>, key=f) is modelled)" % (it,))
+        ASSUMED.setdefault("sorted", "sorted(seq, key=f) returns a permutation of seq that is non-decreasing in f "
+                           "(tuples compare lexicographically, str by code points) and stable")
+        n = it.length
+        out = SymSeq(ctx.fresh("sorted!arr", it.arr.sort()), n, it.kind, fresh=True)
+        ctx.counter += 1
+        perm = z3.Function("sorted!perm!%d" % ctx.counter, z3.IntSort(), z3.IntSort())
+        inv = z3.Function("sorted!inv!%d" % ctx.counter, z3.IntSort(), z3.IntSort())
+        j, k, i = z3.Ints("sj sk si")
+        sel = z3.Select
+        ctx.assume(mk_forall([j], z3.Implies(z3.And(0 <= j, j < n),
+                                             z3.And(0 <= perm(j), perm(j) < n, sel(out.arr, j) == sel(it.arr, perm(j)),
+                                                    inv(perm(j)) == j)), patterns=[sel(out.arr, j)]))
+        ctx.assume(mk_forall([i], z3.Implies(z3.And(0 <= i, i < n),
+                                             z3.And(0 <= inv(i), inv(i) < n, perm(inv(i)) == i,
+                                                    sel(out.arr, inv(i)) == sel(it.arr, i))), patterns=[sel(it.arr, i)]))
+        b, v, gs, src = symbolic_template(self.e, ctx, V.MappedIter(key, out))
+        comps = list(v) if isinstance(v, tuple) else [v]
+        terms = []
+        for c in comps:
+            if isinstance(c, str):
+                c = z3.StringVal(c)
+            elif isinstance(c, (int, bool)):
+                c = z3.IntVal(int(c))
+            terms.append(c)
+        at = lambda t, idx: z3.substitute(t, (b.consts[0], idx))
+
+        def lex_le(a, c):
+            if not a:
+                return z3.BoolVal(True)
+            return z3.Or(a[0] < c[0], z3.And(a[0] == c[0], lex_le(a[1:], c[1:])))
+
+        kj, kk = [at(t, j) for t in terms], [at(t, k) for t in terms]
+        same = z3.And(*[x == y for x, y in zip(kj, kk)])
+        ctx.assume(mk_forall([j, k], z3.Implies(z3.And(0 <= j, j < k, k < n),
+                                                z3.And(lex_le(kj, kk), z3.Implies(same, perm(j) < perm(k)))),
+                             patterns=[z3.MultiPattern(sel(out.arr, j), sel(out.arr, k))]))
+        return out
 
     def bi_enumerate(self, ctx, it, start=0):
         items = self.e.iter_concrete(ctx, it)
